@@ -390,7 +390,16 @@ def run(m: Model, r: Report, tier: str) -> None:
                         if f_ == "isinstance" and len(call.args) == 2 and "ConnectionError" in ast.unparse(call.args[1]):
                             a0 = ast.unparse(call.args[0])
                             # (the client sets __cause__ explicitly; nothing else of the exception - e.g. __context__ - carries the connection error)
-                            return cause_conn if a0 == f"{hn_}.__cause__" else (self_conn if a0 == hn_ else False)
+                            if a0 == f"{hn_}.__cause__":
+                                return cause_conn
+                            if a0 == hn_:
+                                return self_conn
+                            # a loop variable ranging over (e, e.__cause__): decided by the value it holds
+                            try:
+                                v0 = _mtw.eval_expr(call.args[0], env_, orc)
+                            except AnalysisError:
+                                return False
+                            return cause_conn if v0 == "CAUSE" else (self_conn if v0 == "EXC" else False)
                         if f_ == "self.reconnect":
                             called.append(1)
                             return None
